@@ -55,6 +55,12 @@ declare -A DEMO=(
  [C11c_stale_pending_kept]="-p yash-builtin --test c11c_stale_pending"
  [C13c_bang_reset_on_empty_joblist]="-p yash-builtin --test c13c_async_pid_after_wait"
  [C15c_batch_run_until_stalled]="-p yash-executor --test c15c_run_until_stalled"
+ [C06c_global_alias_recursion]="-p yash-syntax --test c06c_global_alias_totality"
+ [C12c_remove_current_fallback]="-p yash-env --test c12c_remove_current_job"
+ [C14c_pipe_reader_on_fd1]="-p yash-semantics --test c14c_pipeline_closed_stdout"
+ [C17c_negation_lost_before_alias]="-p yash-syntax --test c17c_negated_alias"
+ [C18c_line_chunk_splits_utf8]="-p yash-semantics --test c18c_long_line_chunking"
+ [C19c_append_after_truncate]="-p yash-builtin --test c19c_append_after_truncate"
 )
 suite() { # runs the pinned suite in $WT, prints number of baseline tests missing
   (cd $WT && cargo nextest run --workspace --no-fail-fast --tool-config-file pb:/w/lib/nextest.toml --profile pb --test-threads 8 --offline >/dev/null 2>&1
